@@ -661,12 +661,29 @@ func c04(c *core.Ctx) {
 // object passed as `a` (an interface holding a pointer to a local allocation).
 func streamCtxValue(p *core.Prog, fn *ssa.Function, a ssa.Value) ssa.Value {
 	allocs := map[ssa.Value]bool{}
-	for _, o := range core.Origins(a) {
+	fns := map[*ssa.Function]bool{fn: true}
+	// the stream may be built by a private constructor of the package: the object (and the store of its context)
+	// then lives in that function
+	for _, o := range core.XOrigins(a) {
 		if al, ok := o.(*ssa.Alloc); ok {
 			allocs[al] = true
+			fns[al.Parent()] = true
 		}
 	}
 	var out ssa.Value
+	for f := range fns {
+		streamCtxStores(f, allocs, &out)
+	}
+	return out
+}
+
+func streamCtxStores(fn *ssa.Function, allocs map[ssa.Value]bool, res *ssa.Value) {
+	var out ssa.Value
+	defer func() {
+		if out != nil {
+			*res = out
+		}
+	}()
 	core.Instrs(fn, func(in ssa.Instruction) {
 		st, ok := in.(*ssa.Store)
 		if !ok {
@@ -683,7 +700,6 @@ func streamCtxValue(p *core.Prog, fn *ssa.Function, a ssa.Value) ssa.Value {
 			out = st.Val
 		}
 	})
-	return out
 }
 
 // readyDoneOnAllPaths: the WaitGroup waited on in Header() is released
